@@ -413,6 +413,11 @@ fn run_one(c: &Case, f0: &Fault, ctx: &mut Ctx) -> Result<(), Violation> {
                     None => viol!("save-not-offered", "{}: complete but no save context", tag),
                 };
                 let target = savedir.join(format!("saved_{}.bin", ti));
+                if (t.data.len() + ti) % 3 == 0 {
+                    // 'save as' over an older, longer version of the file
+                    std::fs::write(&target, vec![0xEEu8; t.data.len() + 17]).unwrap();
+                    ctx.probe("manual_save_over_longer_existing_file");
+                }
                 let st = plugin.state();
                 let st = st.read().unwrap();
                 let params = serde_json::json!({"saveAs": target.to_string_lossy()});
@@ -667,7 +672,7 @@ impl Check for C17 {
         }
     }
     fn rule() -> &'static str {
-        "one run = one transfer configuration (1-3 concurrent senders with distinct ECU/lifecycle/serial, file sizes {1, b-1, b, b+1, k*b, random <= 64 KiB} x package sizes {1, 7, 10, 64, 1024, 4096, = file}, both byte orders, SINT/UINT package numbers, file names with directory parts, interleaving with unrelated traffic, auto-save directory pre-seeded with same base names as regular files or as dangling symbolic links pointing outside) for which EVERY single fault on the first transfer is enumerated (none, drop/duplicate adjacent/duplicate delayed/swap/resize of every package up to 24 packages, else 7 representative positions; drop announcement; drop end marker; duplicate announcement adjacent/delayed; duplicate end marker) while the other transfers carry a random single fault; each (configuration, fault) is one evaluation; distinct = hash of the configuration"
+        "one run = one transfer configuration (1-3 concurrent senders with distinct ECU/lifecycle/serial, file sizes {1, b-1, b, b+1, k*b, random <= 64 KiB} x package sizes {1, 7, 10, 64, 1024, 4096, = file}, both byte orders, SINT/UINT package numbers, file names with directory parts, interleaving with unrelated traffic, auto-save directory pre-seeded with same base names as regular files or as dangling symbolic links pointing outside) for which EVERY single fault on the first transfer is enumerated (none, drop/duplicate adjacent/duplicate delayed/swap/resize of every package up to 24 packages, else 7 representative positions; drop announcement; drop end marker; duplicate announcement adjacent/delayed; duplicate end marker) while the other transfers carry a random single fault; complete transfers are saved manually (a third of them over an older, longer file at the target path) and compared; each (configuration, fault) is one evaluation; distinct = hash of the configuration"
     }
     fn assumptions() -> Vec<&'static str> {
         vec![
